@@ -346,3 +346,15 @@ pub proof fn lemma_mul_pow10_not_min(c: int, s: nat)
     assert((5 * (2 * c * t)) % 5 == 0) by (nonlinear_arith);
     assert((i128::MIN as int) % 5 != 0);
 }
+
+/// rem_result_ok is the statement: at scale m = max(p, q) the result R satisfies X == Y*t + R for an
+/// integer t, |R| < |Y|, R zero or of the sign of X - and it is the only such value
+pub proof fn lemma_rem_result_meets_statement(x: Decimal, y: Decimal, r: Decimal)
+    requires y.coeff != 0, rem_scale(x, y) >= r.n_frac_digits
+    ensures
+        rem_result_ok(x, y, r) <==> is_trunc_rem(at_scale(x, rem_scale(x, y)), at_scale(y, rem_scale(x, y)), at_scale(r, rem_scale(x, y))),
+{
+    let m = rem_scale(x, y);
+    lemma_at_scale_nonzero(y, m);
+    lemma_trunc_rem_characterization(at_scale(x, m), at_scale(y, m), at_scale(r, m));
+}
